@@ -97,10 +97,11 @@ def scan_sites():
             raise RuntimeError("c19scan found only %d map-iteration sites" % len(sites))
     except Exception as ex:  # noqa
         err = "%s" % (ex,)
-    try:
-        json.dump({"fp": fp, "sites": sites, "err": err, "caches": caches}, open(cache, "w"))
-    except Exception:  # noqa
-        pass
+    if not err:  # never cache a failed scan: the failure may be transient (build cache being filled, disk full)
+        try:
+            json.dump({"fp": fp, "sites": sites, "err": err, "caches": caches}, open(cache, "w"))
+        except Exception:  # noqa
+            pass
     return sites, err, caches
 
 
